@@ -157,6 +157,9 @@ def run_snapping(chk: lib.Check):
         counts[stream] += 1
         if isinstance(r, Err):
             counts["errors"] += 1
+        if style == "tree" and not port and tuple(p) != tuple(s) and not (pos[0] <= p[0] <= pos[0] + max(size[0], 0)):
+            # accepted as "on the top or bottom side": on that line, straight above/below the point, beyond the sides
+            counts["tree_point_beyond_sides"] = counts.get("tree_point_beyond_sides", 0) + 1
         bad = snap_expectation(style, port, pos, size, p, s, r, exact=stream != "random")
         if bad:
             key, what = bad
@@ -921,8 +924,47 @@ def run_edge_ends(chk: lib.Check):
                    describe=lambda i: {"[0 route_manhattan / 1 route_tree, source box, target box], points": route_cases[i][0]})
 
 
+def replay(chk: lib.Check, path: str):
+    """re-run one recorded call on the implementation and report it again if it still fails"""
+    import json
+    from capellambse import diagram as D
+    from capellambse.aird import _edge_factories as EF
+    rec = json.loads(pathlib.Path(path).read_text())
+    rp = rec.get("replay", {})
+    call = rp.get("call")
+    if call == "Box.vector_snap":
+        RS = {"oblique": D.RoutingStyle.OBLIQUE, "manhattan": D.RoutingStyle.MANHATTAN, "tree": D.RoutingStyle.TREE}
+        try:
+            r = D.Box(rp["pos"], rp["size"], port=rp["port"]).vector_snap(rp["point"], source=rp["source"], style=RS[rp["style"]])
+        except Exception as e:  # noqa: BLE001
+            r = err_of(e)
+        bad = snap_expectation(rp["style"], rp["port"], rp["pos"], rp["size"], rp["point"], rp["source"], r, exact=True)
+        print(f"replay: Box({rp['pos']},{rp['size']},port={rp['port']}).vector_snap({rp['point']}, source={rp['source']}, style={rp['style']}) -> {r!r}")
+        if bad:
+            chk.violation(bad[0], bad[1], rp)
+    elif call == "_edge_factories.snaptarget":
+        pts = [D.Vector2D(*q) for q in rp["points"]]
+        i, nxt = (-1, -2) if rp["end"] == "target" else (0, 1)
+        box = D.Box(rp["box"][0], rp["box"][1], port=rp["port"])
+        try:
+            EF.snaptarget(pts, i, nxt, box, routingstyle={"oblique": None, "manhattan": "manhattan", "tree": "tree"}[rp["style"]])
+            print(f"replay: snaptarget -> {[tuple(q) for q in pts]}")
+            pt = pts[-1 if rp["end"] == "target" else 0]
+            ok = (abs(pt[1] - box.pos.y) <= EPS or abs(pt[1] - (box.pos.y + box.size.y)) <= EPS) if rp["style"] == "tree" else on_outline(pt, tuple(box.pos), tuple(box.size))
+            if not ok:
+                chk.violation(rec.get("key", "replay"), f"end {tuple(pt)} not on the outline", rp)
+        except Exception as e:  # noqa: BLE001
+            print(f"replay: snaptarget raises {type(e).__name__}: {e}")
+            chk.violation(rec.get("key", "replay"), f"raises {type(e).__name__}", rp)
+    else:
+        print("replay: this record is re-checked by a full run (diagram / correspondence records carry model, diagram and vector)")
+
+
 def run(chk: lib.Check):
     logging.disable(logging.CRITICAL)      # the parser warns about every skipped element
+    if getattr(chk, "replay_file", None):
+        replay(chk, chk.replay_file)
+        return
     chk.prove()
     run_snapping(chk)
     run_primitives(chk)
